@@ -609,7 +609,44 @@ def m_dict_same_except(ip, d0, d1, key):
     return z3.And(*cs)
 
 
+_OPAQUE_FNS = {}
+
+
+@_always
+def m_defined(ip, name, f, *args):
+    if name not in (ip.ctx.ghost.get('opaque_defs') or ()):
+        return ip.truth(ip.call(f, list(args), {}))
+    zs = []
+    for a in args:
+        a = ip.resolve(a)
+        if isinstance(a, HDict):
+            zs.extend(a.maps[sp] for sp in sorted(a.maps))
+        elif isinstance(a, bool):
+            zs.append(z3.BoolVal(a))
+        elif isinstance(a, int) or sym.is_sym_int(a):
+            zs.append(zint(a))
+        elif is_bytes(a):
+            zs.append(bexpr(a))
+        elif z3.is_bool(a):
+            zs.append(a)
+        else:
+            raise Unsupported(f'defined({name}): argument of kind {type(a).__name__}')
+    key = (name, tuple(str(z.sort()) for z in zs))
+    fn = _OPAQUE_FNS.get(key)
+    if fn is None:
+        fn = z3.Function(f'def_{name}', *[z.sort() for z in zs], z3.BoolSort())
+        _OPAQUE_FNS[key] = fn
+    return fn(*zs)
+
+
+@_always
+def m_unknown_bool(ip, tag):
+    return z3.Bool(f'unk_{tag}#{ip.ctx.count("unk:" + str(tag))}')
+
+
 def install2():
+    models.register_model(vocab.defined, m_defined)
+    models.register_model(vocab.unknown_bool, m_unknown_bool)
     models.register_model(vocab.dict_same_except, m_dict_same_except)
     models.register_model(vocab.strint_part, m_strint_part)
     models.register_model(vocab.concrete_len, m_concrete_len)
